@@ -112,19 +112,32 @@ class ComputeGraph:
             raise AnalysisError(f"no stored column named '{name}' found below compute()")
         for v, e in c:
             for cond, pol in e.pc:
-                if self.is_mode_cond(cond) and pol == target:
+                if self.is_mode_cond(cond) and (pol == self.mode_polarity(cond)) == target:
                     return v
         return c[-1][0]
 
+    def mode_polarity(self, c):
+        """True if the condition holds exactly in Target mode, False if exactly in Diffuse mode, None if it is not a
+        test of the geometry mode (== / != against either mode name, negations)"""
+        neg = False
+        while c.op == "UnaryOp" and c.attr == "Not":
+            c, neg = c.args[0], not neg
+        if c.op != "Compare" or c.attr not in ("Eq", "NotEq") or not any(
+                a.op == "Cfg" and a.attr == ("simulation", "mode") for a in c.args):
+            return None
+        lit = [a.attr for a in c.args if a.op == "Const" and a.attr in ("Target", "Diffuse")]
+        if len(lit) != 1:
+            return None
+        pol = (lit[0] == "Target") == (c.attr == "Eq")
+        return pol != neg
+
     def is_mode_cond(self, c) -> bool:
-        return c.op == "Compare" and c.attr == "Eq" and any(
-            a.op == "Cfg" and a.attr == ("simulation", "mode") for a in c.args) and any(
-            a.op == "Const" and a.attr == "Target" for a in c.args)
+        return self.mode_polarity(c) is not None
 
     def split_mode(self, v):
         """(target alternative, diffuse alternative) of a value merged over the geometry mode"""
         if v.op == "Phi" and self.is_mode_cond(v.args[0]):
-            return v.args[1], v.args[2]
+            return (v.args[1], v.args[2]) if self.mode_polarity(v.args[0]) else (v.args[2], v.args[1])
         return None
 
     def col_matches(self, a, name) -> bool:
